@@ -20,6 +20,13 @@ def Start (algo : Algo) (n : Nat) (data : Bytes) (s : Nat) (h : Hasher) : Prop :
 theorem warm0_le (algo : Algo) (n s : Nat) : warm0 algo n s ≤ n := by
   cases algo <;> simp [warm0]
 
+/-- The warm-up fits in a chunk: RollSum has none, BuzHash needs `window ≤ maxSize`. -/
+theorem warm0_le_max (algo : Algo) (f : FilterConfig) (s : Nat)
+    (hwm : algo = .buz → f.window ≤ f.maxSize) : warm0 algo f.window s ≤ f.maxSize := by
+  cases algo with
+  | roll => simp [warm0]
+  | buz => have := hwm rfl; simp only [warm0]; omega
+
 theorem init_phase {algo n data s h} (hn : 1 ≤ n) (hs : s ≤ data.length)
     (st : Start algo n data s h) :
     ∃ h1, initLoop h (data.drop s) (data.length - s)
@@ -67,7 +74,7 @@ theorem next_unfold (p : RHParams) (h : Hasher) (rest : Bytes) (hv : Nat) (h1 : 
   split <;> rfl
 
 
-theorem feed_phase {algo data s} (f : FilterConfig) (hv : f.Valid) (w0 : Nat)
+theorem feed_phase {algo data s} (f : FilterConfig) (hv : f.Sane) (w0 : Nat)
     (hw0 : w0 ≤ f.window) (h1 : Hasher) (hs : s ≤ data.length)
     (hi : w0 ≤ data.length - s → HInv algo f.window data (s + w0) h1) :
     off3Of (RHParams.ofConfig f)
@@ -79,7 +86,7 @@ theorem feed_phase {algo data s} (f : FilterConfig) (hv : f.Valid) (w0 : Nat)
         (h3Of (RHParams.ofConfig f) h1 (data.drop s)
           (off2Of (RHParams.ofConfig f) (min w0 (data.length - s)) (data.length - s))
           (data.length - s))) := by
-  obtain ⟨hn, hnm, hmm, _, _⟩ := hv
+  obtain ⟨hn, hm1, hmm, _, _⟩ := hv
   generalize hrem : data.length - s = rem
   generalize hp : RHParams.ofConfig f = p
   have hlim : p.limit = if f.minSize ≥ f.window then f.minSize - f.window else 0 := by
@@ -143,7 +150,8 @@ theorem specCut_eq (algo : Algo) (f : FilterConfig) (data : Bytes) (s : Nat) :
     cases fb <;> rfl
 
 /-- One call of `RollingHashChunker::next` at a chunk start, everything buffered, is `specCut`. -/
-theorem next_spec {algo data s h} (f : FilterConfig) (hv : f.Valid) (hs : s < data.length)
+theorem next_spec {algo data s h} (f : FilterConfig) (hv : f.Sane)
+    (hwm : algo = .buz → f.window ≤ f.maxSize) (hs : s < data.length)
     (st : Start algo f.window data s h) :
     match specCut algo f data s with
     | some L => ∃ h', RHState.next (RHParams.ofConfig f) ⟨h, 0⟩ (data.drop s) (data.length - s)
@@ -151,9 +159,10 @@ theorem next_spec {algo data s h} (f : FilterConfig) (hv : f.Valid) (hs : s < da
     | none => ∃ st', RHState.next (RHParams.ofConfig f) ⟨h, 0⟩ (data.drop s) (data.length - s)
           = (st', none) := by
   have hv' := hv
-  obtain ⟨hn, hnm, hmm, _, _⟩ := hv'
+  obtain ⟨hn, hm1, hmm, _, _⟩ := hv'
   obtain ⟨h1, e1, hi1⟩ := init_phase hn (Nat.le_of_lt hs) st
   have hw0 := warm0_le algo f.window s
+  have hwm0 := warm0_le_max algo f s hwm
   obtain ⟨e3, hi3⟩ := feed_phase f hv (warm0 algo f.window s) hw0 h1 (Nat.le_of_lt hs) hi1
   rw [next_unfold _ _ _ _ _ _ e1, specCut_eq]
   simp only [e3]
